@@ -216,7 +216,7 @@ def run(ctx):
             if obs.startswith("OTHER:"):
                 mism.append(("other", rep))
                 continue
-            if before != after and not (module == "site_coord" and source == "ssc"):
+            if before != after:
                 mism.append(("mutated", dict(rep, before=before, after=after)))
             casesA.append(emit.pair(raws_term(ivs), query_term(qd), obs))
             metaA.append(rep)
@@ -249,7 +249,7 @@ def run(ctx):
         ask = [rng.choice(names) if rng.random() < 0.15 else rng.choice(present) for _ in range(rng.randrange(1, 4))]
         spelled = [rng.choice([s, s.upper(), s.capitalize()]) for s in ask]
         if rng.random() < 0.5:
-            sep = rng.choice([",", ", ", " ,", " , "])
+            sep = rng.choice([",", ", ", " ,", " , ", ",\n    ", ",\t", " ,\n", "\t,\t"])
             stations = sep.join(spelled)
             st_term = f"(AsText {emit.s(stations)})"
         else:
@@ -396,7 +396,7 @@ def run(ctx):
             ctx.violation(rep, what=f"outside the model: {kind}")
     # repeated-query source mutation seen in D even when answers agreed
     for rep in metaD:
-        if rep.get("source_changed") and not (rep["module"] == "site_coord" and rep["source"] == "ssc"):
+        if rep.get("source_changed"):
             ctx.violation(rep, what="repeated queries changed the source data")
 
     if not ok:
